@@ -30,12 +30,19 @@
 (* check_stream; how many octets of a request a stalled write has taken;    *)
 (* StreamTooManyOutstandingQueries (2*count > 65535);         *)
 (* StreamLongMessage; callers dropping a request future before it resolves. *)
-EXTENDS ClientMsg, FiniteSets, TLC
+(*                                                                          *)
+(* The budget is the configured one: a connection starts from a             *)
+(* configuration script (ClientConfig: the stream::Config calls the caller  *)
+(* made, the route by which the object was made); the response timeout for  *)
+(* ordinary requests, the one for streaming (zone transfer) requests and    *)
+(* the idle timeout are what that script leaves in force.  Transport::run   *)
+(* puts the timeout of the kind of request it accepted last in force        *)
+(* (`tsel`) for the whole connection.                                       *)
+EXTENDS ClientMsg, ClientConfig, FiniteSets, TLC
 
 CONSTANTS MaxReq,      \* number of request instances (each submitted once)
-          RT,          \* configured response timeout in ticks (>= 1)
-          DefRT,       \* the library's default response timeout in ticks
-          IdleCfg,     \* configured idle timeout in ticks (0 = none)
+          StConfs,     \* the configuration scripts (StScript) a connection may start from
+          TickMs,      \* milliseconds per tick
           RqCap,       \* capacity of the reader -> run channel (8 in the code)
           ChanCap,     \* capacity of the Connection -> run channel (8)
           Frames,      \* the messages the peer may send (a finite alphabet)
@@ -52,11 +59,47 @@ VARIABLES vec, count, curr,          \* Queries
                                      \* not take octets: write() is short, then pending)
           out, closed,               \* observable effects
           asked, sent, done,         \* ghost: per request question, ID, outcomes
-          nsub, nframes              \* counters: requests submitted, peer messages
+          nsub, nframes,             \* counters: requests submitted, peer messages
+          sconf,                     \* the configuration of this connection: [sc, eff, rt,
+                                     \* srt, idle, def]: script, what it leaves in force,
+                                     \* the three timeouts and the default in ticks
+          tsel                       \* "single" | "multi": whose response timeout is in force
 
 vars == <<vec, count, curr, state, keepalive, idle, reqmsg, chan, wire, rq,
           rdead, wfail, wstall, peerOpen, handles, out, closed, asked, sent, done,
-          nsub, nframes>>
+          nsub, nframes, sconf, tsel>>
+
+\* the code tests `elapsed > response_timeout` and `elapsed >= idle_timeout`
+SConfOf(sc) == LET eff == StRun(sc)
+               IN [sc |-> sc, eff |-> eff, rt |-> TicksOver(eff.rt, TickMs),
+                   srt |-> TicksOver(eff.srt, TickMs), idle |-> TicksAt(eff.idle, TickMs),
+                   def |-> TicksOver(StResponse.def, TickMs)]
+\* scripts for timeouts of whole ticks: response rt, streaming srt, idle
+\* (half a tick short, so that `elapsed > timeout` is decided on whole ticks)
+StS(rt, srt, idl) ==
+  StScript("new", <<Call("set_response_timeout", rt * TickMs - TickMs \div 2)>>
+                  \o (IF srt # rt THEN <<Call("set_streaming_response_timeout",
+                                            srt * TickMs - TickMs \div 2)>> ELSE <<>>)
+                  \o <<Call("set_idle_timeout", idl * TickMs)>>)
+St_1_1 == {StS(1, 1, 1)}
+St_1_0 == {StS(1, 1, 0)}
+St_3_2 == {StS(3, 3, 2)}
+\* the streaming timeout longer / shorter than the ordinary one
+St_1s2_0 == {StS(1, 2, 0)}
+St_2s1_0 == {StS(2, 1, 0)}
+St_xfr   == {StS(1, 1, 0), StS(1, 2, 0)}
+\* every setting at and beyond the ends of its range, set twice, not at all,
+\* by every route
+St_bounds ==
+       {StScript(r, <<>>) : r \in {"new", "default", "conn_new"}}
+  \cup {StScript("new", <<Call("set_idle_timeout", 0), Call("set_response_timeout", v)>>) :
+          v \in {0, 1, 599999, 600000, 600001, 3600000}}
+  \cup {StScript("default", <<Call("set_response_timeout", TickMs \div 2), Call("set_idle_timeout", v)>>) :
+          v \in {0, 1, TickMs, TickMs + 1, 3600000, 3600001}}
+  \cup {StScript("new", <<Call("set_streaming_response_timeout", 25000), Call("set_response_timeout", 700000),
+                          Call("set_response_timeout", 5000), Call("set_idle_timeout", 0)>>),
+        StScript("new", <<Call("set_response_timeout", 5000), Call("set_idle_timeout", 0),
+                          Call("set_streaming_response_timeout", 600001)>>)}
 
 (* D_stream_response_timeout_ignored: Config::set_response_timeout stores   *)
 (* the value in `response_timeout` (and `streaming_response_timeout`), but  *)
@@ -66,15 +109,20 @@ vars == <<vec, count, curr, state, keepalive, idle, reqmsg, chan, wire, rq,
 (* the configured timeout is never in force.                                *)
 DevNames == {"D_stream_response_timeout_ignored"}
 
-\* the response timeout in force under a set of deviations
-EffRT(dev) == IF "D_stream_response_timeout_ignored" \in dev THEN DefRT ELSE RT
+\* the response timeout for ordinary requests under a set of deviations
+EffRT(dev, cf) == IF "D_stream_response_timeout_ignored" \in dev THEN cf.def ELSE cf.rt
+\* the response timeout in force
+RtOf(s) == IF s.tsel = "multi" THEN s.conf.srt ELSE s.rts
+\* the one the caller configured for the kind of request accepted last
+WantOf(s) == IF s.tsel = "multi" THEN s.conf.srt ELSE s.conf.rt
 
 Cur == [vec |-> vec, count |-> count, curr |-> curr, state |-> state,
         keepalive |-> keepalive, idle |-> idle, reqmsg |-> reqmsg,
         chan |-> chan, wire |-> wire, rq |-> rq, rdead |-> rdead,
         wfail |-> wfail, wstall |-> wstall, peerOpen |-> peerOpen, handles |-> handles,
         out |-> out, closed |-> closed, asked |-> asked, sent |-> sent,
-        done |-> done, nsub |-> nsub, nframes |-> nframes, rt |-> EffRT(Dev)]
+        done |-> done, nsub |-> nsub, nframes |-> nframes, conf |-> sconf, tsel |-> tsel,
+        rts |-> EffRT(Dev, sconf)]
 
 Set(s) == /\ vec' = s.vec /\ count' = s.count /\ curr' = s.curr
           /\ state' = s.state /\ keepalive' = s.keepalive /\ idle' = s.idle
@@ -83,21 +131,23 @@ Set(s) == /\ vec' = s.vec /\ count' = s.count /\ curr' = s.curr
           /\ peerOpen' = s.peerOpen /\ handles' = s.handles /\ out' = s.out
           /\ closed' = s.closed /\ asked' = s.asked /\ sent' = s.sent
           /\ done' = s.done /\ nsub' = s.nsub /\ nframes' = s.nframes
+          /\ sconf' = s.conf /\ tsel' = s.tsel
 
 Reqs == 1..MaxReq
 Free == [r |-> 0, q |-> 0, x |-> XSt("na", 0)]  \* an empty slot (None)
 St(k, e) == [k |-> k, e |-> e]                  \* e = -1: no timer
 
-InitState ==
+InitState(sc) ==
   [vec |-> <<>>, count |-> 0, curr |-> 0, state |-> St("Active", -1),
-   keepalive |-> TRUE, idle |-> IdleCfg, reqmsg |-> <<>>, chan |-> <<>>,
+   keepalive |-> TRUE, idle |-> SConfOf(sc).idle, reqmsg |-> <<>>, chan |-> <<>>,
    wire |-> <<>>, rq |-> <<>>, rdead |-> "none", wfail |-> FALSE, wstall |-> FALSE,
    peerOpen |-> TRUE, handles |-> TRUE, out |-> <<>>, closed |-> FALSE,
    asked |-> [r \in Reqs |-> 0], sent |-> [r \in Reqs |-> -1],
-   done |-> [r \in Reqs |-> <<>>], nsub |-> 0, nframes |-> 0, rt |-> EffRT(Dev)]
+   done |-> [r \in Reqs |-> <<>>], nsub |-> 0, nframes |-> 0, conf |-> SConfOf(sc),
+   tsel |-> "single", rts |-> EffRT(Dev, SConfOf(sc))]
 
 \* the same connection as the code behaves under deviations dev
-InitStateDev(dev) == [InitState EXCEPT !.rt = EffRT(dev)]
+InitStateDev(dev, sc) == [InitState(sc) EXCEPT !.rts = EffRT(dev, SConfOf(sc))]
 
 --------------------------------------------------------------------------
 (* Queries: insert / try_remove / drain, positions are 1-based here, IDs   *)
@@ -132,7 +182,7 @@ InVec(s) == {s.vec[i].r : i \in {j \in 1..Len(s.vec) : s.vec[j].r # 0}}
 Up(s) == ~s.closed
 
 TimerDue(s) == /\ Up(s)
-               /\ \/ s.state.k = "Active" /\ s.state.e >= s.rt
+               /\ \/ s.state.k = "Active" /\ s.state.e >= RtOf(s)
                   \/ s.state.k = "Idle" /\ s.state.e >= s.idle
 
 Finished(dn) == dn # <<>> /\ dn[Len(dn)].fin
@@ -228,7 +278,10 @@ WriteArm(s) == IF s.wfail THEN Finish(ErrorAll(s, "write"), "WriteErr")
                ELSE [s EXCEPT !.out = Append(@, Head(s.reqmsg)), !.reqmsg = <<>>]
 
 \* arm 4: next request from the channel (only while nothing is being written)
-RecvArm(s) == InsertReq([s EXCEPT !.chan = Tail(@)], Head(s.chan))
+\* (the response timeout of the kind of request taken is put in force first)
+RecvArm(s) == InsertReq([s EXCEPT !.chan = Tail(@),
+                                  !.tsel = IF QKind(Head(s.chan).q) # "single" THEN "multi"
+                                           ELSE "single"], Head(s.chan))
 
 \* arm 4, None: all Connection handles and request futures are gone
 \* (a pending single-response request holds a Connection clone until it is
@@ -360,8 +413,9 @@ XfrAlphabetOf(ids, qs, recset) ==
 (* Fine-grained actions (all interleavings) *)
 
 InitPred ==
+  /\ sconf \in {SConfOf(sc) : sc \in StConfs} /\ tsel = "single"
   /\ vec = <<>> /\ count = 0 /\ curr = 0 /\ state = St("Active", -1)
-  /\ keepalive = TRUE /\ idle = IdleCfg /\ reqmsg = <<>> /\ chan = <<>>
+  /\ keepalive = TRUE /\ idle = sconf.idle /\ reqmsg = <<>> /\ chan = <<>>
   /\ wire = <<>> /\ rq = <<>> /\ rdead = "none" /\ wfail = FALSE /\ wstall = FALSE
   /\ peerOpen = TRUE /\ handles = TRUE /\ out = <<>> /\ closed = FALSE
   /\ asked = [r \in Reqs |-> 0] /\ sent = [r \in Reqs |-> -1]
@@ -473,10 +527,23 @@ NothingLostOf(s) ==
   /\ s.closed => Pending(s) = {}
 
 \* while requests are outstanding the response timer is armed and not
-\* overdue: a request is completed no later than RT ticks after the timer
-\* was last restarted (by the first request or by the most recent message)
+\* overdue: a request is completed no later than the configured response
+\* timeout after the timer was last restarted (by the first request or by
+\* the most recent message).  The timeout is the one configured for the kind
+\* of request accepted last; when that has just made it shorter the timer
+\* may be found overdue, and then fires before the clock moves.
+MaxRt(s) == IF s.conf.rt >= s.conf.srt THEN s.conf.rt ELSE s.conf.srt
 TimerArmedOf(s) ==
-  (Up(s) /\ s.count > 0) => (s.state.k = "Active" /\ s.state.e >= 0 /\ s.state.e <= RT)
+  (Up(s) /\ s.count > 0) =>
+     /\ s.state.k = "Active" /\ s.state.e >= 0
+     /\ \/ s.state.e <= WantOf(s)
+        \/ TimerDue(s) /\ s.state.e <= MaxRt(s)
+\* the timeouts in force are the configured ones
+ConfiguredOf(s) ==
+  /\ StHonoured(s.conf.sc.calls, s.conf.eff)
+  /\ (s.conf.rt - 1) * TickMs <= s.conf.eff.rt /\ s.conf.rt * TickMs > s.conf.eff.rt
+  /\ (s.conf.srt - 1) * TickMs <= s.conf.eff.srt /\ s.conf.srt * TickMs > s.conf.eff.srt
+  /\ (s.conf.idle - 1) * TickMs < s.conf.eff.idle /\ s.conf.idle * TickMs >= s.conf.eff.idle
 
 OwnAnswer      == OwnAnswerOf(Cur)
 AtMostOnce     == AtMostOnceOf(Cur)
@@ -484,6 +551,7 @@ NoCross        == NoCrossOf(Cur)
 SlotTableSound == SlotTableSoundOf(Cur)
 NothingLost    == NothingLostOf(Cur)
 TimerArmed     == TimerArmedOf(Cur)
+Configured     == ConfiguredOf(Cur)
 
 \* liveness: every submitted request is eventually completed, given that
 \* the transport task and the clock keep running (the peer is bounded by
